@@ -124,10 +124,10 @@ CHECKS.update({
             "s' = m*s + (1-m)*new with the momentum of the open context (first update initialises), AdoptQuantizedInputScale and NoSaturationAfterOneBatch; sequential contexts, streamline on/off, raising forwards.",
             "Tolerance 6u per update. Under nested contexts both contexts update (modelled, not asserted). scale == 1.0 treated as uninitialised is a known finding.",
             "DESIGN.md 3.7, 5/C12"),
-    "C13": ("Lifecycle.tla, Trace_Lifecycle.tla",
-            "TLC model check (CalibrationScoped, InferencePure) + executed histories with exceptions raised inside forwards + TLC trace validation of torch's global registries",
+    "C13": ("Lifecycle.tla, CalibScope.tla, Trace_Lifecycle.tla",
+            "TLC model check (CalibrationScoped, InferencePure; CalibScope.tla: the enter / re-enter / reuse / exit / raise protocol alone, complete for histories of any length with nesting <= 4) + executed histories with exceptions raised inside forwards + TLC trace validation of torch's global registries",
             "After every action of every history the harness reads torch's global forward (pre-)hook registries and the torch-function mode stack; TLC checks that they equal the baseline plus the number of open contexts "
-            "(normal exit, nested, exit by an exception raised in module k), that a forward outside calibration leaves every parameter / buffer / scale / qtype digest and its input unchanged, and that repeated evaluation is bit-identical.",
+            "(normal exit, nested, the same object entered again while open, exit by an exception raised in module k), that a forward outside calibration leaves every parameter / buffer / scale / qtype digest and its input unchanged, and that repeated evaluation is bit-identical.",
             "disable_extensions is outside the statement.",
             "DESIGN.md 3.7, 5/C13"),
     "C15": ("AWQ.tla, Trace_AWQ.tla, Exact.tla",
